@@ -142,8 +142,8 @@ func c02(c *an.Ctx) {
 			E + ":(*seriesCursor).nextInner → mergeData":                                       {`^&recv\.memRecIter$`, `^&recv\.tsmRecIter$`, "memtable over files"},
 			E + ":(*tsmMergeCursor).Next → mergeData":                                          {`^&recv\.outOrderRecIter$`, `^&recv\.orderRecIter$`, "out-of-order files over ordered files"},
 			E + ":(*fileCursor).readData → mergeData":                                          {`^recv\.memIter$`, `^recv\.seriesIter\.iter$`, "memtable over files"},
-			E + ":(*tsmMergeCursor).FirstTimeInit → MergeRecord":                               {`^recv\.readData\(false,.*\)#0$`, `^local\(\w+\)$`, "locations are read in ascending file sequence: the record just read is newer than the accumulated one"},
-			E + ":(*tsmMergeCursor).FirstTimeInit → MergeRecordDescend":                        {`^recv\.readData\(false,.*\)#0$`, `^local\(\w+\)$`, "same, descending"},
+			E + ":(*tsmMergeCursor).FirstTimeInit → MergeRecord":                               {`^recv\.readData\((false|recv\.outOfOrderLocations),.*\)#0$`, `^local\(\w+\)$`, "locations are read in ascending file sequence: the record just read is newer than the accumulated one"},
+			E + ":(*tsmMergeCursor).FirstTimeInit → MergeRecordDescend":                        {`^recv\.readData\((false|recv\.outOfOrderLocations),.*\)#0$`, `^local\(\w+\)$`, "same, descending"},
 			E + ":mergeData → MergeRecordByMaxTimeOfOldRec":                                    {`^p0\.record$`, `^p1\.record$`, "roles are forwarded unchanged"},
 			E + ":(*fileLoopCursor).initOutOfOrderItersByRecord → MergeRecordLimitRows":        {`^recv\.mergeRecIters\[p2\]\[p3\]\.iter\.record$`, `^p0\.record$`, "rows buffered from later (newer) out-of-order iterators over the incoming block"},
 			E + ":(*fileLoopCursor).initOutOfOrderItersByRecord → MergeRecordLimitRowsDescend": {`^recv\.mergeRecIters\[p2\]\[p3\]\.iter\.record$`, `^p0\.record$`, "same, descending"},
